@@ -79,7 +79,7 @@ class Prop(BaseProp):
     HEADLINE = ["set_entries_checked", "option_entries_checked", "undocumented_sets_absent"]
 
     def n_cases(self, tier):
-        return 1200 if tier == "quick" else 30000
+        return 8000 if tier == "quick" else 120000
 
     def setup_worker(self):
         runner.cminx()
